@@ -7,6 +7,7 @@ every permutation of a batch at <=1 (quick) / <=2 (thorough) deviating map calls
 state digests of all modes must be bit-identical, and `calls` must equal the instrumented counter.
 """
 import itertools
+import os
 
 import numpy as np
 
@@ -258,7 +259,21 @@ def run_realpool(case):
             res.violate("shared-function:pool-differs-from-serial", f"a sampler with bound arguments {bound} (same likelihood function object as the samplers before it in this process) gives a different run with "
                         f"pool={max(case['sizes'])} than serially (cfg={cfg})", dict(case, bound=str(bound)))
         res.outcome(("shared-function", str(bound), serial), nontrivial=bool(bound))
+    import tempfile
     for n in case["sizes"]:
+        # evaluations are counted across processes through a file that receives one byte per call of the user's likelihood
+        fd, cpath = tempfile.mkstemp(prefix="verif_c13_count_")
+        os.close(fd)
+        try:
+            pc, trc = _run(dict(cfg, eval="poolint", pool_n=n, count_path=cpath), base)
+            evaluated = os.path.getsize(cpath)
+        finally:
+            os.unlink(cpath)
+        res.evals += 1
+        if pc.exc is None:
+            reported = int(pc.state.get_current("calls") or 0)
+            if reported != evaluated:
+                res.violate("real-pool:calls-across-processes", f"pool={n} cfg={cfg}: the sampler reports calls={reported} but the user's likelihood was evaluated {evaluated} times (counted in all worker processes)", dict(case, sizes=[n]))
         p, tr = _run(dict(cfg, eval="poolint", pool_n=n), base)
         res.evals += 1
         res.states += len(tr)
@@ -316,5 +331,6 @@ def plan(ctx):
     for kern in ("tpcn", "rwm"):
         for clu in (False, True):
             rp.append({"kind": "realpool", "cfg": dict(n_particles=6, d=2, n_total=24, sample=kern, clustering=clu), "base": ctx.seed, "sizes": [1, 2, 3] if th else [1, 2]})
+    rp.append({"kind": "realpool", "cfg": dict(n_particles=7, d=2, n_total=28, sample="tpcn", clustering=False), "base": ctx.seed, "sizes": [2, 3] + ([4, 5] if th else [])})  # batch sizes that are NOT multiples of the worker count
     ctx.explore("real-pools", rp)
     ctx.explore("large-scopes", [{"kind": "large", "cfg": dict(n_particles=1500, d=12, n_total=3000, clustering=cl, target="gauss", sample=k), "base": ctx.seed} for cl, k in ((False, "tpcn"), (True, "rwm"))])
